@@ -479,7 +479,7 @@ def gen_schedule(rng, stream, gc, ncos, nops, maxchain, maxdepth, psub=0.6):
             c = [k for k in susp + dead]
             if c:
                 emit(rng.choice(["destroy %d", "destroy %d", "close %d"]) % rng.choice(c))
-        elif r < 0.99:
+        elif r < 1.0 - psub / 60.0:
             emit("gc")
         else:
             emit("sub %d %d" % (rng.randrange(0, 7), rng.randrange(1, 7)))
@@ -691,7 +691,7 @@ def correspond(ctx):
                 ncos = rng.choice([2, 3, 5, 8]) if not big else rng.choice([12, 24])
                 nops = rng.choice([20, 40, 80]) if not big else rng.choice([150, 300])
                 sc, st, ref = gen_schedule(rng, stream, gcmode, ncos, nops, maxchain=8 if not big else 24, maxdepth=8,
-                                           psub=ctx.scale(0.6, 0.2))
+                                           psub=ctx.scale(0.6, 0.06))
                 items.append(("%s-%d" % (stream, i), sc))
                 dist["streams"][stream] = dist["streams"].get(stream, 0) + 1
                 dist["max_chain"] = max(dist["max_chain"], st.pop("_chain", 0))
